@@ -59,6 +59,9 @@ pub trait PF: Send + Sync {
     fn frobenius(&self, a: &[u64], k: usize) -> L;
     fn mul_by_base_prime_field(&self, a: &[u64], b: &[u64]) -> L;
     fn rand(&self, rng: &mut monitor::Rng) -> L;
+    /// the `Field`-trait views of a prime field as a degree-1 extension of itself and its `Debug` text:
+    /// returns the identities that fail (empty when all hold) and `format!("{:?}")` of the element
+    fn misc(&self, a: &[u64]) -> (Vec<String>, String);
     /// `Fp::new(BigInt(int))`: the `const fn` constructor behind `MontFp!`, executed at run time
     fn const_new(&self, int: &[u64]) -> L;
     /// `Fp::from_sign_and_limbs(positive, limbs)` (limbs.len() <= N): what `MontFp!` expands to
@@ -106,6 +109,29 @@ macro_rules! sop_arm {
 }
 
 impl<P: FpConfig<N> + ConstCtor<N>, const N: usize> PF for Ad<P, N> {
+    fn misc(&self, a: &[u64]) -> (Vec<String>, String) {
+        let x = Self::f(a);
+        let mut bad = vec![];
+        if <Fp<P, N> as Field>::extension_degree() != 1 {
+            bad.push("extension_degree() != 1".to_string());
+        }
+        if <Fp<P, N> as Field>::from_base_prime_field(x) != x {
+            bad.push("from_base_prime_field(x) != x".to_string());
+        }
+        if x.to_base_prime_field_elements().collect::<Vec<_>>() != vec![x] {
+            bad.push("to_base_prime_field_elements() != [x]".to_string());
+        }
+        if <Fp<P, N> as Field>::from_base_prime_field_elems([x]) != Some(x) {
+            bad.push("from_base_prime_field_elems([x]) != Some(x)".to_string());
+        }
+        if <Fp<P, N> as Field>::from_base_prime_field_elems([x, x]).is_some() || <Fp<P, N> as Field>::from_base_prime_field_elems([]).is_some() {
+            bad.push("from_base_prime_field_elems accepts a slice whose length is not the extension degree".to_string());
+        }
+        if <Fp<P, N> as Field>::characteristic() != P::MODULUS.0.as_slice() {
+            bad.push("characteristic() != MODULUS".to_string());
+        }
+        (bad, format!("{x:?}"))
+    }
     fn const_new(&self, int: &[u64]) -> L {
         Self::l(P::c_new(BigInt::<N>(int.try_into().expect("limb count"))))
     }
@@ -152,7 +178,12 @@ impl<P: FpConfig<N> + ConstCtor<N>, const N: usize> PF for Ad<P, N> {
                 t += &y;
                 t
             },
-            (0, _) => x + &mut y,
+            (0, 5) => x + &mut y,
+            (0, _) => {
+                let mut t = x;
+                t += &mut y;
+                t
+            },
             (1, 0) => x - y,
             (1, 1) => x - &y,
             (1, 2) => &x - &y,
@@ -166,7 +197,12 @@ impl<P: FpConfig<N> + ConstCtor<N>, const N: usize> PF for Ad<P, N> {
                 t -= &y;
                 t
             },
-            (1, _) => x - &mut y,
+            (1, 5) => x - &mut y,
+            (1, _) => {
+                let mut t = x;
+                t -= &mut y;
+                t
+            },
             (2, 0) => x * y,
             (2, 1) => x * &y,
             (2, 2) => &x * &y,
@@ -180,7 +216,12 @@ impl<P: FpConfig<N> + ConstCtor<N>, const N: usize> PF for Ad<P, N> {
                 t *= &y;
                 t
             },
-            (2, _) => x * &mut y,
+            (2, 5) => x * &mut y,
+            (2, _) => {
+                let mut t = x;
+                t *= &mut y;
+                t
+            },
             (3, 0) => x / y,
             (3, 1) => x / &y,
             (3, 2) => &x / &y,
@@ -194,7 +235,12 @@ impl<P: FpConfig<N> + ConstCtor<N>, const N: usize> PF for Ad<P, N> {
                 t /= &y;
                 t
             },
-            (3, _) => x / &mut y,
+            (3, 5) => x / &mut y,
+            (3, _) => {
+                let mut t = x;
+                t /= &mut y;
+                t
+            },
             _ => unreachable!(),
         };
         Self::l(r)
